@@ -341,7 +341,13 @@ impl Number {
             .iter()
             .cloned()
             .collect::<HashSet<&'static str>>();
-            let (val, orig) = if *orig.0.id == "kg" || *orig.0.id == "kilogram" {
+            // The prefixes get raised to the power of the unit. For an
+            // absurdly large power that takes forever, and the result
+            // would not read any better.
+            let small_power = orig.1.abs() <= 1000;
+            let (val, orig) = if !small_power {
+                (self.value.clone(), (orig.0.clone(), orig.1))
+            } else if *orig.0.id == "kg" || *orig.0.id == "kilogram" {
                 // kg special case
                 let mul = Numeric::from(1000).pow(orig.1 as i32);
                 (&self.value * &mul, (BaseUnit::new("gram"), orig.1))
@@ -352,7 +358,7 @@ impl Number {
                 (self.value.clone(), (orig.0.clone(), orig.1))
             };
             for &(ref p, ref v) in &context.registry.prefixes {
-                if !prefixes.contains(&**p) {
+                if !small_power || !prefixes.contains(&**p) {
                     continue;
                 }
                 let abs = val.abs();
